@@ -41,6 +41,7 @@ Conforms(e) ==
             /\ e.out.panic = ""
             /\ e.out.ok = d.ok
             /\ d.ok => e.out.addr = d.addr
+    [] e.op = "migration.par" -> e.out.panic = ""       \* Encode / Decode called concurrently answer as alone (compared in the driver)
     [] OTHER -> FALSE
 
 Init == l = 1 /\ bad = <<>>
